@@ -447,8 +447,8 @@ def ExtRes.committed : ExtRes → Option Bytes
 commit point in the "start of a loop iteration" state. -/
 theorem chunkExts_restart {relaxed : Bool} {f : Nat} {s c c' : Bytes}
     (h : (chunkExts relaxed f s c).committed = some c') :
-    c' = c ∨ ∀ (m : Bytes) (F : Nat), (s ++ m).length < F →
-      ∃ G, (c' ++ m).length < G ∧ chunkExts relaxed F (s ++ m) (c ++ m) = chunkExts relaxed G (c' ++ m) (c' ++ m) := by
+    c' = c ∨ (ChunkedSets.extCommit = true ∧ ∀ (m : Bytes) (F : Nat), (s ++ m).length < F →
+      ∃ G, (c' ++ m).length < G ∧ chunkExts relaxed F (s ++ m) (c ++ m) = chunkExts relaxed G (c' ++ m) (c' ++ m)) := by
   induction f generalizing s c with
   | zero => simp [chunkExts, ExtRes.committed] at h
   | succ f ih =>
@@ -473,6 +473,7 @@ theorem chunkExts_restart {relaxed : Bool} {f : Nat} {s c c' : Bytes}
           | true =>
             simp only [hfl, if_true] at h
             right
+            refine ⟨rfl, ?_⟩
             intro m F hF
             cases F with
             | zero => omega
@@ -481,27 +482,16 @@ theorem chunkExts_restart {relaxed : Bool} {f : Nat} {s c c' : Bytes}
                 simp only [chunkExts, bws_ok_append m h1, List.cons_append, hb, if_true, oneExt_ok_append m h2, hfl]
               have hlen : (s3 ++ m).length < F := by
                 simp at l1 hF ⊢; omega
-              rcases ih h with heq | hrest
+              rcases ih h with heq | ⟨_, hrest⟩
               · subst heq
                 exact ⟨F, hlen, step⟩
               · obtain ⟨G, hG, hGe⟩ := hrest m F hlen
                 exact ⟨G, hG, step.trans hGe⟩
           | false =>
             simp only [hfl, Bool.false_eq_true, if_false] at h
-            rcases ih h with heq | hrest
+            rcases ih h with heq | ⟨hq, _⟩
             · exact Or.inl heq
-            · right
-              intro m F hF
-              cases F with
-              | zero => omega
-              | succ F =>
-                have step : chunkExts relaxed (F + 1) (s ++ m) (c ++ m) = chunkExts relaxed F (s3 ++ m) (c ++ m) := by
-                  simp only [chunkExts, bws_ok_append m h1, List.cons_append, hb, if_true, oneExt_ok_append m h2, hfl,
-                    Bool.false_eq_true, if_false]
-                have hlen : (s3 ++ m).length < F := by
-                  simp at l1 hF ⊢; omega
-                obtain ⟨G, hG, hGe⟩ := hrest m F hlen
-                exact ⟨G, hG, step.trans hGe⟩
+            · rw [hfl] at hq; exact absurd hq (by simp)
       · simp [hb, ExtRes.committed] at h; exact Or.inl h.symm
 
 theorem skipAll_skipAll_of_sub {p q : CharSet} (hsub : ∀ b, p.mem b = true → q.mem b = true) (s : Bytes) :
@@ -637,7 +627,8 @@ theorem metaSuffix_at_commit_point (relaxed : Bool) (u : Bytes) (G : Nat) (hG : 
             simp [ha13]
 
 theorem metaSuffix_need_restart {relaxed : Bool} {s c : Bytes} (h : metaSuffix relaxed s = .need c) (m : Bytes) :
-    metaSuffix relaxed (s ++ m) = metaSuffix relaxed (c ++ m) ∨ metaSuffix relaxed (s ++ m) = .bad .extCrlf := by
+    metaSuffix relaxed (s ++ m) = metaSuffix relaxed (c ++ m) ∨
+    (ChunkedSets.extCommit = true ∧ metaSuffix relaxed (s ++ m) = .bad .extCrlf) := by
   unfold metaSuffix at h
   cases h1 : bws ChunkedSets.bwsStrict s with
   | need => simp [h1] at h; subst h; exact Or.inl rfl
@@ -645,7 +636,7 @@ theorem metaSuffix_need_restart {relaxed : Bool} {s c : Bytes} (h : metaSuffix r
   | ok s1 =>
     simp only [h1] at h
     have hc := metaPost_committed h
-    rcases chunkExts_restart hc with heq | hrest
+    rcases chunkExts_restart hc with heq | ⟨hq, hrest⟩
     · subst heq; exact Or.inl rfl
     · obtain ⟨G, hG, hGe⟩ := hrest m ((s1 ++ m).length + 1) (by omega)
       have hms : metaSuffix relaxed (s ++ m) = metaPost (chunkExts relaxed G (c ++ m) (c ++ m)) := by
@@ -653,6 +644,8 @@ theorem metaSuffix_need_restart {relaxed : Bool} {s c : Bytes} (h : metaSuffix r
         simp only [bws_ok_append m h1]
         rw [hGe]
       rw [hms]
-      exact metaSuffix_at_commit_point relaxed (c ++ m) G hG
+      rcases metaSuffix_at_commit_point relaxed (c ++ m) G hG with h | h
+      · exact Or.inl h
+      · exact Or.inr ⟨hq, h⟩
 
 end SquidModel.Chunked
